@@ -9,4 +9,4 @@ Extraction "model.ml" mkNumOps nhalf position_distance mkAtom mk_group total_mas
   rotation_matrix rotate corr_matrix overlap_matrix mat4_vec quad_form sq_dev sq_norms
   qmul qconj fit_pairs fit_positions cv_rmsd cv_eigenvector orient_pairs cv_orientation cv_orientation_angle
   cv_orientation_proj cv_spin_angle cv_tilt cv_euler_phi cv_euler_psi cv_euler_theta cv_distance_pairs
-  pairlist_build cv_coordnum_pl sorted_ids sorted_map load_coords fit_general flat_coords cv_rmsd_perm pl_step pl_run pl_session frame_wsd apath_sz frame_pair_rmsd auto_lambda cv_apath center_pts pl_build_pts pl_value_pts self_pts center_pairs eigvec_prepare cv_eigenvector_v mkSupComp SupModify SupFlags sup_run sup_scalar sup_vector cvc_wrap.
+  pairlist_build cv_coordnum_pl sorted_ids sorted_map load_coords fit_general flat_coords cv_rmsd_perm pl_step pl_run pl_session frame_wsd apath_sz frame_pair_rmsd auto_lambda cv_apath center_pts pl_build_pts pl_value_pts self_pts center_pairs eigvec_prepare cv_eigenvector_v mkSupComp SupModify SupFlags sup_run sup_scalar sup_vector cvc_wrap pd_cell pl_session_pts pts_full.
